@@ -6,7 +6,7 @@
 //! transaction and returns a `StepRec` with the pre-state snapshot, so monitors can compare.
 
 use crate::world::{
-    exchange::{load, OrderKind, OrderReq},
+    exchange::{self, load, OrderKind, OrderReq},
     *,
 };
 use anchor_lang::prelude::Pubkey;
@@ -526,6 +526,19 @@ impl Sim {
                 Op::CreateOrder { user, req }
             }
             7 if n_act > 0 => {
+                // fault: execute an action that is already terminal (cancelled / completed) but not closed yet
+                if self.rng.chance(1, 6) {
+                    let terminal: Vec<usize> = (0..n_act)
+                        .filter(|i| {
+                            let a = &self.actions[*i];
+                            action_state(&self.w.svm, a.kind, &a.addr).map(|s| s.is_completed_or_cancelled()).unwrap_or(false)
+                        })
+                        .collect();
+                    if !terminal.is_empty() {
+                        let action = terminal[self.rng.below(terminal.len() as u64) as usize];
+                        return Op::Execute { action, throw: self.rng.chance(1, 4) };
+                    }
+                }
                 let action = self.pick_action(true);
                 Op::Execute { action, throw: self.rng.chance(1, 3) }
             }
@@ -751,6 +764,8 @@ impl Sim {
             }
             Op::Execute { action, throw } => {
                 let a = self.actions[*action].clone();
+                // the keeper may claim any execution fee up to the action's maximum
+                self.w.exec_fee = *self.rng.pick(&[exchange::EXECUTION_FEE, exchange::EXECUTION_FEE, exchange::EXECUTION_FEE / 2, 1_000_000, 1_000, 0]);
                 let ixs = match a.kind {
                     ActKind::Deposit => self.w.execute_deposit_ix(keeper, a.addr, *throw).map(|i| vec![i]),
                     ActKind::Withdrawal => self.w.execute_withdrawal_ix(keeper, a.addr, *throw).map(|i| vec![i]),
